@@ -44,7 +44,14 @@ def run(req):
         setattr(K, k, v)
     K.P = req.get('params') or {}
     c = ConcCtx(req['values'])
-    call = K.setup(c)
+    try:
+        call = K.setup(c)
+    except Exception as e:  # noqa
+        names = [k.__name__ for k in type(e).__mro__]
+        if any(n in names for n in getattr(K, 'setup_may_raise', ())):
+            return {'pre_ok': False, 'setup_raised': type(e).__name__}
+        return {'pre_ok': True, 'setup_raised': type(e).__name__, 'failed': ['setup-raises-only'], 'clauses': {'setup-raises-only': False},
+                'traceback': traceback.format_exc()[-1500:]}
     out = {'pre_ok': c.pre_ok, 'missing_inputs': c.missing}
     if not c.pre_ok:
         return out
